@@ -1,6 +1,7 @@
 """C08 - list, count and display-all agree on the same PELs, in file-name order (E4/E1: directories x option sets x modes)."""
 import itertools
 import json
+from mc import strictjson
 import os
 import tempfile
 
@@ -116,11 +117,11 @@ def check_combo(d, files, sw, slist, extra, want_x=False):
         if r.status != 0 or r.exc:
             probs.append(('%s exit' % nm, 'status %r exc %r' % (r.status, r.exc)))
     try:
-        count = json.loads(rn.stdout)['Number of PELs found']
-        lst = json.loads(rl.stdout, object_pairs_hook=lambda p: p)
+        count = strictjson.loads(rn.stdout)['Number of PELs found']
+        lst = strictjson.loads(rl.stdout, object_pairs_hook=lambda p: p)
         lst_keys = [k for k, _ in lst]
         lst_map = {k: dict(v) for k, v in lst}
-        docs = json.loads(ra.stdout)
+        docs = strictjson.loads(ra.stdout)
     except Exception as e:
         probs.append(('unparsable', '%s' % e))
         return probs, len(want), trans
